@@ -51,6 +51,8 @@ static std::vector<std::pair<size_t, size_t>> line_spans(const std::string& t) {
 
 static std::vector<Mut> mutations(const Seed& s, bool thorough) {
     std::vector<Mut> m;
+    if (s.level == 3) { m.push_back({'I', 0, 0}); return m; }                       // generated SUMMARY sections: run as they are
+    if (s.level == 4) { auto ln = line_spans(s.text); for (int i = 1; i < (int)ln.size(); ++i) { m.push_back({'i', i, 0}); m.push_back({'i', i, 1}); } return m; }   // INCLUDE split at every line
     if (s.binary) {
         for (int o = 0; o < (int)s.text.size(); ++o) { for (int v = 0; v < 4; ++v) m.push_back({'x', o, v}); m.push_back({'t', o, 0}); }
         return m;
@@ -72,6 +74,7 @@ static std::string apply(const Seed& s, const Mut& m) {
     case 'd': { auto ln = line_spans(t); return t.substr(0, ln[m.a].first) + t.substr(ln[m.a].second); }
     case 'u': { auto ln = line_spans(t); return t.substr(0, ln[m.a].second) + t.substr(ln[m.a].first); }
     case 's': { auto ln = line_spans(t); return t.substr(0, ln[m.a].first) + t.substr(ln[m.a + 1].first, ln[m.a + 1].second - ln[m.a + 1].first) + t.substr(ln[m.a].first, ln[m.a].second - ln[m.a].first) + t.substr(ln[m.a + 1].second); }
+    case 'I': case 'i': return t;
     case 't': return t.substr(0, m.a);
     case 'x': { std::string r = t; unsigned char c = r[m.a]; r[m.a] = m.b == 0 ? 0x00 : m.b == 1 ? 0xFF : m.b == 2 ? (c ^ 0x80) : (c + 1); return r; }
     }
@@ -96,6 +99,33 @@ static uint64_t run_text(const std::string& text, int level, int cfg) {
         eg.clear();
         return h;
     } catch (const std::exception& e) { eg.clear(); return vf::fnv(std::string("exc:") + typeid(e).name() + ":" + std::string(e.what()).substr(0, 40)); }
+}
+// level 3: SummaryConfig of the model deck with a generated SUMMARY section (EclipseState and Schedule of the model are built once)
+static uint64_t run_summary(const std::string& text, int cfg) {
+    ParseContext pc; pc.update(cfg == 0 ? InputErrorAction::THROW_EXCEPTION : InputErrorAction::IGNORE);
+    ErrorGuard eg;
+    static std::unique_ptr<EclipseState> es; static std::unique_ptr<Schedule> sched;
+    try {
+        Deck deck = P->parseString(text, pc, eg);
+        if (!es) { es = std::make_unique<EclipseState>(deck); sched = std::make_unique<Schedule>(deck, *es, pc, eg, std::make_shared<Python>()); }
+        SummaryConfig sc(deck, *sched, es->fieldProps(), es->aquifer(), pc, eg);
+        SummaryConfig sc2 = sc; sc2.merge(sc);
+        uint64_t h = vf::fnv("summary" + std::to_string(sc.size()) + ":" + std::to_string(sc2.size()));
+        eg.clear();
+        return h;
+    } catch (const std::exception& e) { eg.clear(); return vf::fnv(std::string("exc:") + typeid(e).name()); }
+}
+// level 4: the deck text split over an INCLUDE file at line `cut` (dir 0: head in the include file, dir 1: tail in the include file), read with parseFile
+static uint64_t run_include(const std::string& text, int cut, int dir, int cfg) {
+    ParseContext pc; pc.update(cfg == 0 ? InputErrorAction::THROW_EXCEPTION : InputErrorAction::IGNORE);
+    ErrorGuard eg;
+    auto ln = line_spans(text);
+    const std::string head = text.substr(0, ln[cut].first), tail = text.substr(ln[cut].first);
+    const std::string inc = g_dir + "/part.inc", main = g_dir + "/MAIN.DATA";
+    { std::ofstream f(inc, std::ios::trunc); f << (dir == 0 ? head : tail); }
+    { std::ofstream f(main, std::ios::trunc); if (dir == 0) f << "INCLUDE\n 'part.inc' /\n" << tail; else f << head << "INCLUDE\n 'part.inc' /\n"; }
+    try { Deck deck = P->parseFile(main, pc, eg); eg.clear(); return vf::fnv("inc" + std::to_string(deck.size())); }
+    catch (const std::exception& e) { eg.clear(); return vf::fnv(std::string("exc:") + typeid(e).name()); }
 }
 static uint64_t run_file(const std::string& bytes, const std::string& ext) {
     const std::string fn = g_dir + "/M." + ext;
@@ -141,7 +171,37 @@ static std::vector<Seed> make_seeds(bool thorough) {
         EclipseGrid g(deck); g.save(d + "/G.EGRID", false, {}, UnitSystem::newMETRIC());
         s.push_back({"EGRID", slurp(d + "/G.EGRID"), 2, true, "EGRID"});
     }
-    (void)thorough;
+    // generated SUMMARY sections (level 3): every SUMMARY keyword of the parser alone and with TCPU behind it, list items with
+    // 1, 2 (thorough 3) entries: node counts on both sides of every boundary of the post-processing of the node list
+    {
+        const std::string model = slurp(root + "/data/MODEL1.DATA");
+        const size_t ps = model.find("\nSUMMARY\n"), pe = model.find("\nSCHEDULE\n");
+        if (ps != std::string::npos && pe != std::string::npos) {
+            const std::string before = model.substr(0, ps + 9), after = model.substr(pe);
+            for (int v = 0; v < (thorough ? 2 : 1); ++v) for (auto& in : deckgen::catalogue(*P, v, nullptr)) {
+                const auto& kw = P->getParserKeywordFromDeckName(in.name);
+                if (!kw.isValidSection("SUMMARY") || in.freetext || in.lines.empty()) continue;
+                // list variants: a record line made of one repeated token -> 1, 2, 3 distinct entries
+                std::vector<std::string> bodies;
+                std::string plain; for (size_t l = 1; l < in.lines.size(); ++l) plain += in.lines[l] + "\n";
+                for (size_t p2 = 0; (p2 = plain.find("'ABC'", p2)) != std::string::npos; ) plain.replace(p2, 5, "'P1'");
+                bodies.push_back(plain);
+                if (v == 0 && in.lines.size() >= 2) {
+                    auto tk = deckgen::tokens(in.lines[1]);
+                    if (tk.size() >= 3 && tk.back() == "/" && tk[0] == tk[1]) {
+                        const bool str = tk[0][0] == '\'';
+                        const char* names[] = {"'P1'", "'P2'", "'I1'"};
+                        for (int n = 1; n <= (thorough ? 3 : 2); ++n) { std::string b = " "; for (int q = 0; q < n; ++q) b += (str ? std::string(names[q]) : std::to_string(q + 1)) + " "; b += "/\n"; for (size_t l = 2; l < in.lines.size(); ++l) b += in.lines[l] + "\n"; bodies.push_back(b); }
+                    }
+                }
+                int bi = 0;
+                for (auto& b : bodies) for (int tail = 0; tail < 2; ++tail) { s.push_back({"summary:" + in.name + ":" + std::to_string(v) + ":" + std::to_string(bi) + ":" + std::to_string(tail), before + in.lines[0] + "\n" + b + (tail ? "TCPU\n" : "") + after, 3}); }
+                ++bi;
+            }
+        }
+    }
+    // the model deck split over an INCLUDE file at every line, both directions (level 4)
+    s.push_back({"include-split:MODEL1", slurp(root + "/data/MODEL1.DATA"), 4});
     return s;
 }
 
@@ -153,7 +213,7 @@ int main(int argc, char** argv) {
     Parser parser; P = &parser;
     const char* sc = std::getenv("VERIF_SCRATCH");
     g_dir = std::string(sc ? sc : "/tmp") + "/C20." + std::to_string(getpid()); fs::create_directories(g_dir);
-    run.rule = "seeds: a complete model deck (parse + EclipseState + Schedule + SummaryConfig), one synthesised instance per parser deck name (parse), generated UNRST/FUNRST/SMSPEC+UNSMRY/EGRID files (EclFile/ERst/ESmry/EGrid/EclipseGrid readers); mutations, every single one at every site: token delete/duplicate/replace by each of " + std::to_string(hostile.size()) + " hostile tokens, line drop/duplicate/swap, truncation at every byte (model deck quick: every 7th), for files every byte x {0x00,0xFF,bit7,+1} and truncation at every offset; two ParseContext configurations (all errors THROW / all IGNORE); executed in the ASan+UBSan build in forked workers; oracle: normal return or std::exception - any signal, sanitizer report, foreign exception, exit() or timeout is a violation keyed by (kind, first /repo frame)";
+    run.rule = "seeds: a complete model deck (parse + EclipseState + Schedule + SummaryConfig), the same deck with its SUMMARY section replaced by every SUMMARY keyword of the parser alone / followed by TCPU / with 1..3 list entries (SummaryConfig + merge), the same deck split over an INCLUDE file at every line in both directions (parseFile), one synthesised instance per parser deck name (parse), generated UNRST/FUNRST/SMSPEC+UNSMRY/EGRID files (EclFile/ERst/ESmry/EGrid/EclipseGrid readers); mutations, every single one at every site: token delete/duplicate/replace by each of " + std::to_string(hostile.size()) + " hostile tokens, line drop/duplicate/swap, truncation at every byte (model deck quick: every 7th), for files every byte x {0x00,0xFF,bit7,+1} and truncation at every offset; two ParseContext configurations (all errors THROW / all IGNORE); executed in the ASan+UBSan build in forked workers; oracle: normal return or std::exception - any signal, sanitizer report, foreign exception, exit() or timeout is a violation keyed by (kind, first /repo frame)";
     run.assumptions = {"'any byte string' is claimed for the single-mutation neighbourhood of the seeds only", "mutants that enlarge DIMENS beyond 1e5 cells are classified resource-heavy and not constructed", "per-case time limit 20 s in the sanitizer build, re-run alone with 150 s before being called a hang; a mutant that replaces a token by 1000000 or a 99999999999-fold repeat and still exceeds it is classified resource-heavy (counted), like mutants enlarging DIMENS"};
 
     auto seeds = make_seeds(run.thorough());
@@ -175,6 +235,7 @@ int main(int argc, char** argv) {
             for (auto& m : ms) for (int cfg = 0; cfg < (seeds[si].binary ? 1 : 2); ++cfg) {
                 // quick tier: catalogue instances get the token mutations under the THROW configuration only
                 if (run.quick() && seeds[si].level == 0 && !seeds[si].binary && (cfg == 1 || !(m.kind == 'D' || m.kind == 'U' || m.kind == 'R'))) continue;
+                if (run.quick() && seeds[si].level == 3 && cfg == 1) continue;          // quick: generated SUMMARY sections under the THROW configuration only
                 if (run.mine()) cases.push_back({si, m, cfg});
             }
         }
@@ -194,7 +255,7 @@ int main(int argc, char** argv) {
             for (size_t i = next; i < N; ++i) {
                 sh->idx = (long)i; alarm(limit);
                 const Case& c = cases[i]; const Seed& s = seeds[c.seed];
-                try { std::string t = apply(s, c.m); sh->outcome[i] = s.binary ? run_file(t, s.ext) : run_text(t, s.level, c.cfg); }
+                try { std::string t = apply(s, c.m); sh->outcome[i] = s.binary ? run_file(t, s.ext) : s.level == 3 ? run_summary(t, c.cfg) : s.level == 4 ? run_include(s.text, c.m.a, c.m.b, c.cfg) : run_text(t, s.level, c.cfg); }
                 catch (...) { sh->foreign = 1; _exit(87); }
                 if (limit != LIM1) break;        // a retried case runs alone
             }
